@@ -402,3 +402,22 @@ BENIGN["C20"] = [
     (CEN, "    ref = ref - ref.min()\n", "    ref = numpy.array(ref)\n    ref -= ref.min()\n"),
     (CON, "    image = image / image.max()\n", "    image = image.copy()\n    image /= image.max()\n"),
 ]
+
+# memoisation: exact rule (a cache is a violation only if a cached object can change or escape, or the key is incomplete)
+_OP_HDR = 'import numpy\nfrom . import fouriertransform\n'
+_OP_BENIGN = 'import numpy\nfrom . import fouriertransform\nfrom functools import lru_cache\n\n\n@lru_cache(maxsize=None)\ndef _wavevector(wvl):\n    return 2*numpy.pi/wvl\n'
+_OP_BAD = 'import numpy\nfrom . import fouriertransform\nfrom functools import lru_cache\n\n\n@lru_cache(maxsize=8)\ndef _lens_grid(N, d1, wvl, f):\n    fX = numpy.arange( -N/2.,N/2.)/(N*d1)\n    x2,y2 = numpy.meshgrid(wvl * f * fX, wvl * f * fX)\n    return x2**2 + y2**2\n'
+for _P in ("C10", "C11", "C20"):
+    BENIGN[_P] += [(OP, _OP_HDR + "|||    k = 2*numpy.pi/wvl  #Optical Wavevector\n", _OP_BENIGN + "|||    k = _wavevector(wvl)\n")]
+    SEEDED[_P] += [(OP, _OP_HDR + "|||    Uout = numpy.exp( 1j*k/(2*f) * (x2**2 + y2**2) )/ (1j*wvl*f)",
+                    _OP_BAD + "|||    r2sq = _lens_grid(N, d1, wvl, f)\n    r2sq *= k/(2*f)\n    Uout = numpy.exp( 1j * r2sq )/ (1j*wvl*f)", "pure" if _P != "C20" else "P2")]
+
+# module-level dict caches: complete key + copies handed out = invisible (benign); key missing an input = hidden state
+_ZN_OLD = "    n, m = zernIndex(j)\n    return zernike_nm(n, m, N, rot)\n"
+_ZN_BAD = "    key = (int(j), int(N))\n    if key not in _noll_modes:\n        n, m = zernIndex(j)\n        _noll_modes[key] = zernike_nm(n, m, N, rot)\n    return _noll_modes[key].copy()\n"
+_ZN_OK = "    key = (int(j), int(N), float(rot))\n    if key not in _noll_modes:\n        n, m = zernIndex(j)\n        _noll_modes[key] = zernike_nm(n, m, N, rot)\n    return _noll_modes[key].copy()\n"
+_ZN_NOCOPY = _ZN_OK.replace(".copy()", "")
+_ZDEF = "def zernike_noll(j, N, rot=0):"
+SEEDED["C20"] += [(ZER, _ZDEF + "|||" + _ZN_OLD, "_noll_modes = {}\n\n\n" + _ZDEF + "|||" + _ZN_BAD, "P2"),
+                  (ZER, _ZDEF + "|||" + _ZN_OLD, "_noll_modes = {}\n\n\n" + _ZDEF + "|||" + _ZN_NOCOPY, "P2")]
+BENIGN["C20"] += [(ZER, _ZDEF + "|||" + _ZN_OLD, "_noll_modes = {}\n\n\n" + _ZDEF + "|||" + _ZN_OK)]
